@@ -1,6 +1,7 @@
 package core
 
 import (
+	"errors"
 	"encoding/json"
 	"fmt"
 	"os"
@@ -59,6 +60,13 @@ type Engine[P any] struct {
 	// several properties down to the counters that can be non-zero in this
 	// property's scenario (nil: all).
 	Relevant func(name string) bool
+	// Outside, when set, is asked first: plans that are not executed in this
+	// process at all (they compare fresh child processes) return a result here;
+	// nil means "execute in a bubble as usual".
+	Outside func(p *P, trace bool) *Result
+	// ChildEval is what such a child process computes for a plan (mode
+	// "childeval": plan in, bytes out, nothing else).
+	ChildEval func(p *P) []byte
 }
 
 // KnownFinding is one entry of /verif/known_findings.json.
@@ -322,6 +330,12 @@ func RunWorker[P any](t *testing.T, cfg Config, eng *Engine[P]) {
 	exec := func(p *P, trace bool) *Result {
 		currentPlanJSON, _ = json.Marshal(p)
 		var res *Result
+		if eng.Outside != nil {
+			if res = eng.Outside(p, trace); res != nil {
+				runsDone.Add(1)
+				return res
+			}
+		}
 		InBubble(t, func() { res = eng.Exec(p, trace) })
 		runsDone.Add(1)
 		for _, rr := range NewRaceReports() {
@@ -342,6 +356,17 @@ func RunWorker[P any](t *testing.T, cfg Config, eng *Engine[P]) {
 		return res
 	}
 	switch cfg.Mode {
+	case "childeval":
+		// a fresh process that evaluates one plan and writes what it computed
+		b, err := os.ReadFile(cfg.ReplayPath)
+		p := new(P)
+		if err != nil || json.Unmarshal(b, p) != nil || eng.ChildEval == nil {
+			os.Exit(ExitInternal)
+		}
+		if os.WriteFile(cfg.Out, eng.ChildEval(p), 0o644) != nil {
+			os.Exit(ExitInternal)
+		}
+		os.Exit(ExitOK)
 	case "prefix":
 		// re-execute the runs 0..Run of a worker seed in this fresh process
 		b, err := os.ReadFile(cfg.ReplayPath)
@@ -837,6 +862,53 @@ func RunChild(replayPath, out, prop string) (int, *Replay) {
 		}
 	}
 	return code, nil
+}
+
+var evalSeq atomic.Uint64
+
+// SpawnEval runs this test binary as a fresh process in mode "childeval" on
+// the given plan and returns what it wrote. The child is single-threaded as
+// far as the harness is concerned and reads no schedule: what it computes is a
+// function of the plan and of the library.
+func SpawnEval(plan any) ([]byte, error) {
+	dir := os.TempDir()
+	if currentCfg.Out != "" {
+		dir = filepath.Dir(currentCfg.Out)
+	}
+	n := evalSeq.Add(1)
+	in := filepath.Join(dir, fmt.Sprintf("eval-%d-%d.in.json", os.Getpid(), n))
+	out := filepath.Join(dir, fmt.Sprintf("eval-%d-%d.out.json", os.Getpid(), n))
+	defer os.Remove(in)
+	defer os.Remove(out)
+	pb, _ := json.Marshal(plan)
+	if err := os.WriteFile(in, pb, 0o644); err != nil {
+		return nil, err
+	}
+	cmd := exec.Command(os.Args[0], "-test.run", "^TestWorker$", "-test.cpu", "1", "-test.timeout", "2m")
+	env := []string{}
+	for _, e := range os.Environ() {
+		if strings.HasPrefix(e, "VERIF_MODE=") || strings.HasPrefix(e, "VERIF_REPLAY=") || strings.HasPrefix(e, "VERIF_OUT=") || strings.HasPrefix(e, "GORACE=") || strings.HasPrefix(e, "VERIF_HASHLOG=") {
+			continue
+		}
+		env = append(env, e)
+	}
+	cmd.Env = append(env, "VERIF_MODE=childeval", "VERIF_REPLAY="+in, "VERIF_OUT="+out, "VERIF_PROP="+currentCfg.Property)
+	done := make(chan error, 1)
+	if err := cmd.Start(); err != nil {
+		return nil, err
+	}
+	go func() { done <- cmd.Wait() }()
+	select {
+	case err := <-done:
+		if err != nil {
+			return nil, fmt.Errorf("child process: %v", err)
+		}
+	case <-time.After(120 * time.Second):
+		cmd.Process.Kill()
+		<-done
+		return nil, errors.New("child process timed out")
+	}
+	return os.ReadFile(out)
 }
 
 // SortedKeys is a helper for deterministic iteration.
